@@ -477,6 +477,14 @@ impl Iterator for QueryState<'_> {
             // be reported again by later queries.
             machine.machine_st.ball.reset();
 
+            // it unwound every frame of this query, so whatever bookkeeping
+            // of setup_call_cleanup/3 or call_with_inference_limit/3 it cut
+            // short (an interrupt can strike between any two instructions
+            // of theirs) refers to frames that are gone.
+            machine.machine_st.scc_block = 0;
+            machine.machine_st.cont_pts.clear();
+            machine.machine_st.cwil.reset();
+
             if let Term::Compound(functor, args) = &exception_term {
                 if functor == "error" && args.len() == 2 {
                     // We have an error
